@@ -39,9 +39,11 @@ func (l *recLimit) OnSample(st int64, rtt int64, inFlight int, didDrop bool) {
 }
 
 type lst struct {
-	id     int
-	called int
-	last   int
+	id       int
+	called   int
+	last     int
+	stale    int
+	staleGot int
 }
 
 var innerKinds = []string{"aimd", "vegas", "gradient", "gradient2", "settable", "fixed", "rec"}
@@ -168,7 +170,18 @@ func TestCheck(t *testing.T) {
 		register := func() {
 			l := &lst{id: len(ls)}
 			ls = append(ls, l)
-			top.NotifyOnChange(func(v int) { l.called++; l.last = v })
+			top.NotifyOnChange(func(v int) {
+				l.called++
+				l.last = v
+				// SettableLimit publishes with an atomic store and notifies outside any lock of its own, so reading the
+				// estimate here is safe (it would self-deadlock on the mutex-guarded algorithms): from the moment a value is
+				// delivered, EstimatedLimit must already report it
+				if settable != nil && wk == "bare" {
+					if e := settable.EstimatedLimit(); e != v && l.stale == 0 {
+						l.stale, l.staleGot = 1, e
+					}
+				}
+			})
 			rt.Count("listeners_registered", 1)
 		}
 		for k := r.IntN(3); k > 0; k-- {
@@ -246,6 +259,11 @@ func TestCheck(t *testing.T) {
 				}
 			}
 			for _, l := range ls[:nreg] {
+				if l.stale == 1 {
+					l.stale = 2
+					fail("estimate-not-yet-published-when-listener-is-notified", rt.J{"listener": l.id, "notified": l.last, "estimate_read_inside_callback": l.staleGot})
+					return
+				}
 				if l.called > 0 {
 					notified++
 					if l.last != after {
